@@ -8,7 +8,7 @@ SRC=$1; NAME=$2; PROP=$3; TIER=${4:-quick}
 export GOFLAGS=-mod=mod GOPROXY=off GOSUMDB=off GOTOOLCHAIN=local
 WT=$(mktemp -d /tmp/seedwt-XXXX); rmdir $WT
 git -C /repo worktree add --detach $WT HEAD -q || exit 2
-cleanup() { git -C /repo worktree remove --force $WT 2>/dev/null; git -C /repo checkout -- . ; }
+cleanup() { git -C /repo worktree remove --force $WT 2>/dev/null; }
 trap cleanup EXIT
 cp /repo/go.mod /repo/go.sum /tmp/seedmod-$$.d/ 2>/dev/null || { mkdir -p /tmp/seedmod-$$.d; cp /repo/go.mod /repo/go.sum /tmp/seedmod-$$.d/; }
 MF="-modfile=/tmp/seedmod-$$.d/go.mod"
@@ -32,9 +32,11 @@ fi
 res "tests_pass_with_patch=$T_OK demo_with_patch=$D_WITH demo_without_patch=$D_WITHOUT"
 [ "$D_WITH" = fail ] && [ "$D_WITHOUT" = pass ] || { res "demonstration not confirmed"; exit 2; }
 cd /verif
-git -C /repo apply $SRC/patch.diff || { res "patch does not apply to /repo"; exit 2; }
-timeout 3600 bin/check $PROP $TIER > /tmp/seedcheck-$$.out 2>&1; RC=$?
-git -C /repo checkout -- .
+# the checks are run against the scratch worktree with the change applied (VERIF_REPO), so /repo itself is
+# never modified and other checks can run meanwhile
+git -C $WT apply $SRC/patch.diff || { res "patch does not apply"; exit 2; }
+rm -f $WT/$PLACE/zz_demo_test.go
+VERIF_REPO=$WT timeout 3600 bin/check $PROP $TIER > /tmp/seedcheck-$$.out 2>&1; RC=$?
 grep -E 'VIOLATION|violation:|INFRA|KNOWN' /tmp/seedcheck-$$.out | head -8
 res "bin/check $PROP $TIER exit=$RC"
 mkdir -p /verif/seeded/$NAME
